@@ -246,6 +246,31 @@ func judgeView(v vfView, tr *vw.Trace) (string, map[string]bool, *vw.Violation) 
 			return "", el, vw.Violationf("l2-services-disagree", "a dual-stack service on %v elects %v, a service holding only %s elects %v", v.IPs, an, v.IPs[0], announcers(d3))
 		}
 	}
+	// ... and services holding the same addresses in another order, or only the second one
+	if len(v.IPs) > 1 {
+		v2 := v
+		v2.IPs = []string{v.IPs[1], v.IPs[0]}
+		d4, _ := v2.l2Decisions("same-pair-other-order")
+		if fmt.Sprint(announcers(d4)) != fmt.Sprint(an) {
+			viol := vw.Violationf("l2-services-disagree", "a dual-stack service recorded as %v elects %v, one recorded as %v elects %v", v.IPs, an, v2.IPs, announcers(d4)).WithSig("l2-services-disagree:same-pair-other-order")
+			if id := vw.KnownID("C04", viol); id != "" {
+				tr.Known(id)
+			} else {
+				return "", el, viol
+			}
+		}
+		v3 := v
+		v3.IPs = v.IPs[1:]
+		d5, _ := v3.l2Decisions("second-address-sharer")
+		if fmt.Sprint(announcers(d5)) != fmt.Sprint(an) {
+			viol := vw.Violationf("l2-services-disagree", "a dual-stack service on %v elects %v, a service holding only %s elects %v", v.IPs, an, v.IPs[1], announcers(d5)).WithSig("l2-services-disagree:sharer-of-second-address")
+			if id := vw.KnownID("C04", viol); id != "" {
+				tr.Known(id)
+			} else {
+				return "", el, viol
+			}
+		}
+	}
 	if want == 1 {
 		return an[0], el, nil
 	}
@@ -261,6 +286,15 @@ func keysOf(m map[string]bool) []string {
 	}
 	sort.Strings(out)
 	return out
+}
+
+// Witness of the known findings about the election key (committed under /verif/witness).
+func TestVerifC04Witness(t *testing.T) {
+	vw.RunWitnesses(t, vw.Options{Property: "C04", Engine: "views-witness", Rule: "committed witness views of the known findings"}, "TestVerifC04Views",
+		func(v vfView, tr *vw.Trace) *vw.Violation {
+			_, _, viol := judgeView(v, tr)
+			return viol
+		})
 }
 
 func TestVerifC04Views(t *testing.T) {
